@@ -195,3 +195,45 @@ Definition emit (d: dir) (r: option (slot * winner)) (e: kv) : kv :=
   | Some (_, WEngine _) => KNone                           (* handler declines; a built-in handler reads the engine *)
   | None => KNone                                          (* handler declines: built-in behaviour *)
   end.
+
+(* ---- what ends up applied to the value when the field is compiled ----
+   A `use_annotations`/generic strategy (WAnn) re-enters the registry for the type named by
+   the annotation of its serialize/deserialize method (no annotation: Any, key `anyk`).
+   On re-entry the spec keeps its annotated_type (`stale`: [An] for an Annotated alias, []
+   otherwise) and drops the field strategy if that was the winner.  Result: the markers of
+   the callables applied, in resolution order, and what happens to the innermost value
+   (0 = built-in rendering, 1 = untouched); None = the compilation does not terminate. *)
+Definition marker_of (d: dir) (v: sval) : nat :=
+  match v with VStrat _ _ s e => match d with Ser => s | De => e end | _ => 0 end.
+
+Definition drop_field_strat (Sr: sources) : sources :=
+  {| f_ser := f_ser Sr; f_de := f_de Sr; f_strat := None; t_call := t_call Sr;
+     t_cfgd := t_cfgd Sr; t_cfg := t_cfg Sr; t_dflt := t_dflt Sr |}.
+
+Fixpoint applied (fuel: nat) (Sr: sources) (ks stale: list kv) (anyk: kv) (d: dir) (first: bool)
+  : option (list nat * nat) :=
+  match fuel with
+  | O => None
+  | S n =>
+    match resolve Sr ks d with
+    | None => Some ([], if first then 0 else 1)
+    | Some (_, WPass) => Some ([], 1)
+    | Some (_, WFn m) => Some ([m], 1)
+    | Some (_, WEngine _) => Some ([], 0)
+    | Some (s, WAnn v) =>
+        let Sr' := match s with SFieldStrat => drop_field_strat Sr | _ => Sr end in
+        match applied n Sr' (stale ++ [anyk; anyk]) stale anyk d false with
+        | Some (l, b) => Some (marker_of d v :: l, b)
+        | None => None
+        end
+    end
+  end.
+
+Definition stale_of (annotated: kv) : list kv := if k_truthy annotated then [annotated] else [].
+
+Definition obs_eqb (a b: option (list nat * nat)) : bool :=
+  match a, b with
+  | None, None => true
+  | Some (l1, b1), Some (l2, b2) => Nat.eqb b1 b2 && (Nat.eqb (List.length l1) (List.length l2) && forallb (fun p => Nat.eqb (fst p) (snd p)) (combine l1 l2))
+  | _, _ => false
+  end.
